@@ -29,6 +29,21 @@ def mbase(rnd, cfgline):
     return ['mbase %d %d' % (b >> 16, b & 0xFFFF)]
 
 
+# image pairs whose 32-bit checksums (the harness' sum32, initial value 7) agree in their low 16 bits and differ above (found by search)
+SUM32_PAIRS = [([9, 8, 243, 218, 61, 13, 11, 98, 228, 71, 168, 167], [9, 8, 128, 199, 98, 92, 85, 167, 145, 115, 100, 115]),
+               ([9, 8, 111, 225, 98, 182, 255, 235, 38, 74, 141, 32], [9, 8, 62, 55, 76, 190, 125, 134, 26, 15, 120, 152]),
+               ([9, 8, 100, 8, 127, 40, 34, 64, 194, 26, 22, 8], [9, 8, 151, 27, 135, 201, 162, 244, 208, 141, 58, 166])]
+
+
+def crafted():
+    """a partial store that changes the 32-bit checksum in its upper half only; and stores that leave the checksum as it is"""
+    for A, B in SUM32_PAIRS:
+        for aux in (9999, 5, 12):
+            c = 'cfg %d 3 12 3 %d' % (3 + 4 + 12 + 3, aux)
+            yield [c, 'store 12 %s' % ' '.join(map(str, A)), 'validate', 'storep 2 10 %s' % ' '.join(map(str, B[2:])), 'validate', 'fetch', 'reopen', 'validate',
+                   'store 12 %s' % ' '.join(map(str, A)), 'validate', 'storep 0 2 9 8', 'validate', 'fetch', 'store 12 %s' % ' '.join(map(str, B)), 'validate', 'fetch']
+
+
 def histories(rnd, count, nops, maxn):
     for _ in range(count):
         n = rnd.choice([1, 2, 3, 7, 16, 33, maxn, rnd.randint(1, maxn)])
@@ -78,7 +93,7 @@ def run(tier):
                   nontrivial=lambda u, evl, post: u != post or evl.startswith(('validate', 'fetch')), heap='16g', prefix=lambda r, w: mbase(r, w[0]) if w and w[0].startswith('cfg') else [])
     rnd = random.Random(vf.seed())
     vf.trace_flow(v, 'PersistentTrace.tla', 'PersistentTrace.cfg', 'persist',
-                  histories(rnd, 64 if quick else 480, 60 if quick else 150, 120 if quick else 300), 'pstrace')
+                  list(crafted()) + list(histories(rnd, 64 if quick else 480, 60 if quick else 150, 120 if quick else 300)), 'pstrace')
     v.cov['rule'] = ('E1: every transition of the TLC graph of Persistent.tla over the configuration grid (see cfg) up to the depth bound, all paths, '
                      'random walks, on a guarded medium. E2: random histories with N up to 300. distinct_nontrivial = distinct model transitions '
                      'that change the medium or are validate/fetch operations.')
